@@ -82,6 +82,22 @@ func rtScenario(name string) string {
 			case "loop2":
 				t0 = time.Now()
 				errs <- c.Scheduler().Loop(c.Ref(), 2*rtUnit, &rtTick{9}, vivid.WithSchedulerReference("r"))
+			case "mixed":
+				// four short one-shots (they fire and leave their references behind) interleaved with four loops
+				t0 = time.Now()
+				var first error
+				for i := 0; i < 4; i++ {
+					if err := c.Scheduler().Once(c.Ref(), rtUnit, &rtTick{100 + i}, vivid.WithSchedulerReference(fmt.Sprintf("o%d", i))); err != nil && first == nil {
+						first = err
+					}
+					if err := c.Scheduler().Loop(c.Ref(), 2*rtUnit, &rtTick{200 + i}, vivid.WithSchedulerReference(fmt.Sprintf("l%d", i))); err != nil && first == nil {
+						first = err
+					}
+				}
+				errs <- first
+			case "clear":
+				c.Scheduler().Clear()
+				errs <- nil
 			case "cancel":
 				errs <- c.Scheduler().Cancel("r")
 			case "cancel-unknown":
@@ -180,6 +196,32 @@ func rtScenario(name string) string {
 		if d2 := lg.deadLetters(); d2 != d {
 			return fmt.Sprintf("OWNER-RESTARTED: %d dead letter(s) from jobs of a restarted actor", d2-d)
 		}
+	case "fired-then-clear", "fired-then-killed", "fired-then-restarted":
+		// history matters: one-shots that have already fired sit next to live loops when everything is cleared
+		if err := sendWait("mixed"); err != nil {
+			return "Once/Loop returned " + err.Error()
+		}
+		wait(3.5)
+		if n := count(); n < 4 {
+			return fmt.Sprintf("ONCE: four Once(1 unit) jobs delivered only %d message(s) in 3.5 units", n)
+		}
+		switch name {
+		case "fired-then-clear":
+			sendWait("clear")
+		case "fired-then-killed":
+			sys.Kill(ref, false, "rt")
+		default:
+			sys.Tell(ref, "boom")
+		}
+		wait(2)
+		n, d := count(), lg.deadLetters()
+		wait(7)
+		if m := count(); m != n {
+			return fmt.Sprintf("CLEARED: %d deliveries after every job of the actor was cleared (%s) — a fired one-shot's stale reference must not keep live jobs alive", m-n, name)
+		}
+		if d2 := lg.deadLetters(); d2 != d {
+			return fmt.Sprintf("CLEARED: %d dead letter(s) from jobs that should have been cleared (%s)", d2-d, name)
+		}
 	case "cancel-unknown":
 		err := sendWait("cancel-unknown")
 		if err == nil || !strings.Contains(err.Error(), vivid.ErrorNotFound.GetMessage()) {
@@ -224,7 +266,7 @@ func (e *schedrtEngine) Generate(c *Ctx) {
 		reps = 5
 	}
 	for r := 0; r < reps; r++ {
-		for _, sc := range []string{"once", "loop-cancel", "once-cancel", "owner-killed", "owner-restarted", "cancel-unknown", "cron-invalid"} {
+		for _, sc := range []string{"once", "loop-cancel", "once-cancel", "owner-killed", "owner-restarted", "cancel-unknown", "cron-invalid", "fired-then-clear", "fired-then-killed", "fired-then-restarted"} {
 			c.Case("rt " + sc)
 			c.R.Nontrivial()
 			c.R.Hit("rt:" + sc)
